@@ -53,6 +53,7 @@ pub open spec fn zf_wf<'a>(z: &ZipFile<'a>) -> bool {
 impl ZipError {
 //@item src/result.rs | impl ZipError | const PASSWORD_REQUIRED
 }
+//@include spec/entry_pos.rs
 //@use find_content nobody
 //@use make_crypto_reader nobody
 
@@ -83,6 +84,7 @@ impl<R: Read + io::Seek> ZipArchive<R> {
 //@use za_by_index_with_optional_password
 //@use za_by_index
 //@use za_by_index_decrypt
+//@use za_by_index_raw
 //@use za_by_name_with_optional_password
 //@use za_by_name
 //@use za_into_inner
